@@ -102,6 +102,10 @@ def try_decoding(data, encoding):
     '''Return whether the Python codec could decode the data.'''
     try:
         data.decode(encoding, 'strict')
+    except LookupError:
+        # Unknown codec, or a codec that is not a text encoding (a server
+        # may send charset=hex)
+        return False
     except UnicodeError:
         # Data under 16 bytes is very unlikely to be truncated
         if len(data) > 16:
